@@ -93,6 +93,8 @@ def switch(fieldname, ftype, *cases):
 # ------------------------------------------------------------------------------------------------
 
 def _text(i):
+    if i.get("hardkind"):
+        return i.get("hardtext", "")
     h = i["hard"]
     if h == NONE:
         return None
@@ -160,6 +162,20 @@ def render(code, ind="    "):
 
 def _xml_escape(s):
     return s.replace("&", "&amp;").replace("<", "&lt;").replace(">", "&gt;")
+
+
+def fix_cnames(code):
+    """SpecGen emits the bare case value as cname; the generated class is <Field>Data<value>."""
+    for i in code:
+        if i["tag"] == "chunked":
+            fix_cnames(i["body"])
+        elif i["tag"] == "switch":
+            for c in i["cases"]:
+                pre = pascal(i["field"]) + "Data"
+                if not c["cname"].startswith(pre):
+                    c["cname"] = pre + c["cname"]
+                fix_cnames(c["body"])
+    return code
 
 
 def render_program(p):
